@@ -93,6 +93,66 @@ default_policy = 1.2.3.4.1
 digests = sha1, sha224, sha256, sha384, sha512
 ess_cert_id_chain = no
 ess_cert_id_alg = sha256
+[ tsa_sd_sha1 ]
+dir = .
+serial = ./tsaserial
+crypto_device = builtin
+signer_digest = sha1
+default_policy = 1.2.3.4.1
+digests = sha1, sha224, sha256, sha384, sha512
+accuracy = secs:1
+ess_cert_id_chain = no
+ess_cert_id_alg = sha256
+[ tsa_sd_sha224 ]
+dir = .
+serial = ./tsaserial
+crypto_device = builtin
+signer_digest = sha224
+default_policy = 1.2.3.4.1
+digests = sha1, sha224, sha256, sha384, sha512
+accuracy = secs:1
+ess_cert_id_chain = no
+ess_cert_id_alg = sha256
+[ tsa_sd_sha256 ]
+dir = .
+serial = ./tsaserial
+crypto_device = builtin
+signer_digest = sha256
+default_policy = 1.2.3.4.1
+digests = sha1, sha224, sha256, sha384, sha512
+accuracy = secs:1
+ess_cert_id_chain = no
+ess_cert_id_alg = sha256
+[ tsa_sd_sha384 ]
+dir = .
+serial = ./tsaserial
+crypto_device = builtin
+signer_digest = sha384
+default_policy = 1.2.3.4.1
+digests = sha1, sha224, sha256, sha384, sha512
+accuracy = secs:1
+ess_cert_id_chain = no
+ess_cert_id_alg = sha256
+[ tsa_sd_sha512 ]
+dir = .
+serial = ./tsaserial
+crypto_device = builtin
+signer_digest = sha512
+default_policy = 1.2.3.4.1
+digests = sha1, sha224, sha256, sha384, sha512
+accuracy = secs:1
+ess_cert_id_chain = no
+ess_cert_id_alg = sha256
+[ tsa_sd_md5 ]
+dir = .
+serial = ./tsaserial
+crypto_device = builtin
+signer_digest = md5
+default_policy = 1.2.3.4.1
+digests = sha1, sha224, sha256, sha384, sha512
+accuracy = secs:1
+ess_cert_id_chain = no
+ess_cert_id_alg = sha256
 "#;
 
 #[derive(Clone, Debug)]
@@ -344,6 +404,35 @@ impl Pki {
             &asn1_time(not_after), "-notext",
         ]);
         Cred { name: name.to_string(), cert, key, not_before, not_after }
+    }
+
+    /// Like `issue`, with the subject key made by `openssl genpkey <keyargs>` (e.g.
+    /// `["-algorithm", "RSA-PSS", "-pkeyopt", "rsa_keygen_bits:2048"]`); `None` if openssl refuses.
+    pub fn issue_key(&self, ca: &Cred, name: &str, ext: &str, not_before: i64, not_after: i64, keyargs: &[&str]) -> Option<Cred> {
+        let key = self.dir.join(format!("{name}.key"));
+        let csr = self.dir.join(format!("{name}.csr"));
+        let cert = self.dir.join(format!("{name}.pem"));
+        let mut g = vec!["genpkey"];
+        g.extend_from_slice(keyargs);
+        g.extend_from_slice(&["-out", key.to_str().unwrap()]);
+        if !self.openssl(&g).0 {
+            return None;
+        }
+        if !self.openssl(&[
+            "req", "-new", "-key", key.to_str().unwrap(), "-subj", &format!("/O=Verif/CN={name}"),
+            "-config", "ca.cnf", "-out", csr.to_str().unwrap(),
+        ]).0 {
+            return None;
+        }
+        if !self.openssl(&[
+            "ca", "-batch", "-config", "ca.cnf", "-cert", ca.cert.to_str().unwrap(), "-keyfile",
+            ca.key.to_str().unwrap(), "-in", csr.to_str().unwrap(), "-out", cert.to_str().unwrap(),
+            "-extensions", ext, "-startdate", &asn1_time(not_before), "-enddate",
+            &asn1_time(not_after), "-notext",
+        ]).0 {
+            return None;
+        }
+        Some(Cred { name: name.to_string(), cert, key, not_before, not_after })
     }
 
     /// RFC 3161 TimeStampResp over the digest `digest_hex` (algorithm `md` = sha1/sha256/sha384/sha512),
